@@ -782,6 +782,19 @@ impl<'ctx> ByteCompiler<'ctx> {
         BindingKind::Stack(index)
     }
 
+    /// Binding to use for an assignment to an already declared binding (not an initialization).
+    ///
+    /// A lexical binding that lives in a register gets its register when its declaration is
+    /// compiled; an assignment that is compiled before that point executes while the binding is
+    /// still uninitialized, so it must not create the register (it has to throw instead).
+    #[inline]
+    pub(crate) fn assignment_binding(&mut self, binding: IdentifierReference) -> BindingKind {
+        if binding.local() && binding.is_lexical() {
+            return self.get_binding(&binding);
+        }
+        self.insert_binding(binding)
+    }
+
     #[inline]
     pub(crate) fn insert_binding(&mut self, binding: IdentifierReference) -> BindingKind {
         if binding.is_global_object() {
@@ -849,7 +862,7 @@ impl<'ctx> ByteCompiler<'ctx> {
             }
             BindingOpcode::SetName => match self.lexical_scope.set_mutable_binding(name.clone()) {
                 Ok(binding) => {
-                    let index = self.insert_binding(binding);
+                    let index = self.assignment_binding(binding);
                     self.emit_binding_access(BindingAccessOpcode::SetName, &index, value);
                 }
                 Err(BindingLocatorError::MutateImmutable) => {
@@ -976,6 +989,9 @@ impl<'ctx> ByteCompiler<'ctx> {
                     .bytecode
                     .emit_delete_name(value.variable(), (*index).into()),
             },
+            BindingKind::Local(None) if matches!(opcode, BindingAccessOpcode::DeleteName) => {
+                self.bytecode.emit_store_false(value.variable());
+            }
             BindingKind::Local(None) => {
                 let error_msg = self.get_or_insert_literal(Literal::String(js_string!(
                     "access of uninitialized binding"
@@ -1583,7 +1599,7 @@ impl<'ctx> ByteCompiler<'ctx> {
                 if is_lexical {
                     match self.lexical_scope.set_mutable_binding(name.clone()) {
                         Ok(binding) => {
-                            let index = self.insert_binding(binding);
+                            let index = self.assignment_binding(binding);
                             self.emit_binding_access(BindingAccessOpcode::SetName, &index, value);
                         }
                         Err(BindingLocatorError::MutateImmutable) => {
